@@ -1417,6 +1417,7 @@ func runOracles(h *history, r *runResult) []failure {
 	}
 	if h.Leg == "init-failure" {
 		o.c04()
+		o.c18Retention()
 		return o.fails
 	}
 	if h.Leg == "slow-reader" {
